@@ -9,6 +9,8 @@ from ..core import Ctx, enc
 from ..gen.project import Gen, Knobs, build_system
 
 THEOREMS = [
+    # defaultPostProcess
+    "PostProcess.subclasses_inverse", "PostProcess.subclasses_count",
     # property theorems (full strength, no hypothesis beyond "the operation did not raise")
     "Registry.inv_step", "Registry.inv_run", "Registry.Inv.invB", "Registry.invB_run",
     "Registry.registered_under_current_name", "Registry.registered_names_unique", "Registry.registered_exactly_once",
@@ -347,6 +349,116 @@ def stream_projects(ctx: Ctx, n: int) -> None:
                 ctx.disagree("registry-oplog", p, strip_aliases(mo)[:3000], io_[:3000])
 
 
+class PostSnap:
+    """wraps model.defaultPostProcess (looked up when a System is created): the kinds of all class members right
+    before it runs are kept on the system as `_verif_pre_kinds`"""
+
+    def __enter__(self):
+        from pydoctor import model
+        self._orig = model.defaultPostProcess
+        orig = self._orig
+
+        def wrapped(system):
+            pre = {}
+            for o in system.allobjects.values():
+                if isinstance(o.parent, model.Class):
+                    pre[id(o)] = o.kind
+            system._verif_pre_kinds = pre
+            return orig(system)
+        model.defaultPostProcess = wrapped
+        return self
+
+    def __exit__(self, *a):
+        from pydoctor import model
+        model.defaultPostProcess = self._orig
+
+
+def stream_postprocess(ctx: Ctx, n: int) -> None:
+    """model.defaultPostProcess on real systems: `subclasses` against PostProcess.subclasses and the direct
+    "inverse of baseobjects" oracle; `_inherits_instance_variable_kind` against PostProcess.kindPass and the
+    order-free specification (an instance variable of that name up the linearisation)"""
+    from pydoctor import model
+    from ..gen.project import Unit
+    from .c06 import hierarchy_scenario, alias_scenario
+    reqs, impls, pay = [], [], []
+    for i in range(n + len(CORPUS)):
+        if i < len(CORPUS):
+            units = [Unit(q, p_, s_, par) for q, p_, s_, par in CORPUS[i]]
+        elif i % 3 == 0:
+            g = Gen(ctx.rng, Knobs(dotted_names=False))
+            units = g.project()
+        elif i % 11 == 1:
+            units = alias_scenario(ctx.rng)
+        else:
+            units = hierarchy_scenario(ctx.rng)
+        src = {u.qname: u.source for u in units}
+        try:
+            with PostSnap():
+                system = build_system(units)
+        except Exception as e:
+            ctx.fail("analysis-crash:" + type(e).__name__, {"units": src}, f"{type(e).__name__}: {e}")
+            continue
+        pre = getattr(system, "_verif_pre_kinds", None)
+        if pre is None:
+            ctx.count("postprocess:not-run")
+            continue
+        classes = [o for o in system.allobjects.values() if isinstance(o, model.Class)]
+        cid = {id(c): k for k, c in enumerate(classes)}
+        # ---- subclasses
+        ctoks = []
+        for c in classes:
+            bs = [("N" if b is None else str(cid.get(id(b), "N"))) for b in c.baseobjects]
+            ctoks.append("%d:%s" % (cid[id(c)], ",".join(bs) or "-"))
+        reqs.append("postprocess subclasses %s %s" % (",".join(str(k) for k in range(len(classes))) or "-", " ".join(ctoks)))
+        impls.append("ok " + " ".join("%d=%s" % (k, ",".join(str(cid[id(x)]) for x in c.subclasses if id(x) in cid) or "-") for k, c in enumerate(classes)))
+        pay.append({"units": src, "what": "subclasses"})
+        ctx.count("postprocess:classes", len(classes))
+        for c in classes:
+            want = [x for x in classes for b in x.baseobjects if b is c]
+            if [id(x) for x in c.subclasses] != [id(x) for x in want]:
+                ctx.fail("subclasses-not-inverse-of-bases", {"units": src},
+                         f"{c.fullName()}.subclasses = {[x.fullName() for x in c.subclasses]}, classes naming it as resolved base: {[x.fullName() for x in want]}")
+                break
+        # ---- kinds of inherited attributes
+        members = [o for o in system.allobjects.values() if isinstance(o.parent, model.Class) and id(o.parent) in cid]
+        mid = {id(o): k for k, o in enumerate(members)}
+        names: Dict[str, int] = {}
+        K = model.DocumentableKind
+
+        def letter(kind):
+            return "c" if kind is K.CLASS_VARIABLE else ("i" if kind is K.INSTANCE_VARIABLE else "o")
+        mtoks = ["%d:%d:%s" % (cid[id(o.parent)], names.setdefault(o.name, len(names)), letter(pre.get(id(o), o.kind))) for o in members]
+        order = [mid[id(o)] for o in system.allobjects.values() if isinstance(o, model.Attribute) and id(o) in mid]
+        mros = []
+        ok_mro = True
+        for c in classes:
+            try:
+                lin = [cid[id(x)] for x in c.mro(include_self=True) if id(x) in cid]
+            except Exception:
+                ok_mro = False
+                break
+            mros.append("%d=%s" % (cid[id(c)], ",".join(map(str, lin))))
+        if not ok_mro or not members:
+            continue
+        reqs.append("postprocess kinds %s %s | %s" % (",".join(map(str, order)) or "-", " ".join(mtoks), " ".join(mros)))
+        impls.append("ok " + "".join(letter(o.kind) for o in members))
+        pay.append({"units": src, "what": "kinds"})
+        ncv = sum(1 for o in members if pre.get(id(o)) is K.CLASS_VARIABLE and o.kind is K.INSTANCE_VARIABLE)
+        ctx.count("postprocess:class-variables-turned-instance-variables", ncv)
+        ctx.case("postprocess " + repr(sorted(src.items())), ncv > 0 or any(c.subclasses for c in classes))
+        # the order-free specification, on the kinds before the pass
+        for o in members:
+            if not isinstance(o, model.Attribute):
+                continue
+            inh = [b.contents[o.name] for b in o.parent.mro(include_self=False) if o.name in b.contents]
+            want = K.INSTANCE_VARIABLE if (pre.get(id(o)) is K.CLASS_VARIABLE and any(pre.get(id(x), x.kind) is K.INSTANCE_VARIABLE for x in inh)) else pre.get(id(o))
+            if o.kind is not want and letter(o.kind) != letter(want):
+                ctx.fail("inherited-instance-variable-kind", {"units": src},
+                         f"{o.fullName()}: kind {o.kind} after post-processing, specification says {want} (before: {pre.get(id(o))}; same name up the linearisation: {[(x.fullName(), str(pre.get(id(x)))) for x in inh]})")
+                break
+    ctx.compare("postprocess", reqs, impls, pay)
+
+
 API_NAMES = ["a", "b", "C", "x", "x.setter", "setter", "m", "a 0"]
 
 
@@ -459,6 +571,7 @@ def stream_api(ctx: Ctx, n: int) -> None:
 def run(ctx: Ctx) -> None:
     stream_projects(ctx, 250 if ctx.quick else 6000)
     stream_api(ctx, 1500 if ctx.quick else 40000)
+    stream_postprocess(ctx, 250 if ctx.quick else 4000)
 
 
 def replay(ctx: Ctx, obj) -> int:
